@@ -20,8 +20,13 @@ Definition cst_tokens (d : decl) : list N := const_tokens (d_op d) (const_val (d
 Definition targ_tokens (a : targ) : list N := match a with TInt d => cst_tokens d | TStr b => tok_bytes OP_STRING b end.
 Definition leaf_entry (p : path) (lk : lkind) (l : fxs) (ta : list targ) : list N :=
   [1] ++ tok_path p ++ [lk_op lk] ++ flat_map (fun '(w, v) => tok_const (fw_op w) v) l ++ flat_map targ_tokens ta.
-Definition pkg_entry (p : path) (n : N) (elems : list targ) : list N :=
-  [1] ++ tok_path p ++ [aml_pOpName] ++ [OP_PACKAGE; 0; 1 + lenN elems] ++ tok_const OP_BYTE n ++ flat_map targ_tokens elems.
+Fixpoint pel_tokens (e : pel) : list N :=
+  match e with
+  | PLeaf a => targ_tokens a
+  | PSub _ n es => [OP_PACKAGE; 0; 1 + lenN es] ++ tok_const OP_BYTE n ++ flat_map pel_tokens es
+  end.
+Definition pkg_entry (p : path) (n : N) (elems : list pel) : list N :=
+  [1] ++ tok_path p ++ [aml_pOpName] ++ [OP_PACKAGE; 0; 1 + lenN elems] ++ tok_const OP_BYTE n ++ flat_map pel_tokens elems.
 Definition dev_entry (p : path) : list N := blk_entry p BDev [].
 Definition meth_entry (p : path) (fl : N) : list N := blk_entry p BMeth [(W1, fl)].
 
@@ -219,35 +224,76 @@ Proof.
   - apply render_str. exact Hk.
 Qed.
 
-Lemma walkF_namepkg (t : T) tables f known p es stmts c co pth pk po kb ksb so eidx n elems :
-  obj t c = Some co -> o_opcode co = aml_pOpName -> View.kids t co = [pth; pk] ->
-  obj t pk = Some po -> o_opcode po = aml_pOpPackage -> o_infoIndex po = 11 -> o_value po = None -> View.kids t po = [kb; ksb] ->
-  fx_obj t kb (W1, n) -> obj t ksb = Some so -> o_opcode so = aml_pOpIntScopeBlock -> View.kids t so = eidx ->
-  Forall2 (targ_obj t tables) eidx elems -> forallb targ_okb elems = true ->
-  walkF t tables f known p (es, stmts) c = (es ++ [pkg_entry (p ++ [name_num (o_name co)]) n elems], stmts).
+(** the objects of a package element *)
+Section All2.
+Variable P : N -> pel -> Prop.
+Fixpoint all2 (ks : list N) (es : list pel) {struct es} : Prop :=
+  match es, ks with [], [] => True | e :: es', k :: ks' => P k e /\ all2 ks' es' | _, _ => False end.
+End All2.
+Fixpoint pel_obj (t : T) (tables : list (list N)) (idx : N) (e : pel) {struct e} : Prop :=
+  match e with
+  | PLeaf a => targ_obj t tables idx a
+  | PSub _ n es =>
+      exists po kb ksb so, obj t idx = Some po /\ o_opcode po = aml_pOpPackage /\ o_infoIndex po = 11 /\ o_value po = None /\
+        View.kids t po = [kb; ksb] /\ fx_obj t kb (W1, n) /\ obj t ksb = Some so /\ o_opcode so = aml_pOpIntScopeBlock /\
+        all2 (pel_obj t tables) (View.kids t so) es
+  end.
+Definition pels_obj (t : T) (tables : list (list N)) (ks : list N) (es : list pel) : Prop := all2 (pel_obj t tables) ks es.
+Lemma pel_obj_sub t tables idx k n es : pel_obj t tables idx (PSub k n es) =
+  (exists po kb ksb so, obj t idx = Some po /\ o_opcode po = aml_pOpPackage /\ o_infoIndex po = 11 /\ o_value po = None /\
+     View.kids t po = [kb; ksb] /\ fx_obj t kb (W1, n) /\ obj t ksb = Some so /\ o_opcode so = aml_pOpIntScopeBlock /\
+     pels_obj t tables (View.kids t so) es).
+Proof. reflexivity. Qed.
+
+Lemma render_pels (t : T) tables known sc : forall es ks f, pels_obj t tables ks es -> forallb pel_okb es = true -> (pels_sz es <= f)%nat ->
+  flat_map (renderExpr t tables f known sc) ks = flat_map pel_tokens es /\ length ks = length es.
 Proof.
-  intros Ho Hop Hk Hpo Hopp Hinf Hvp Hkp Hkb Hso Hops Hks HF Hok. unfold walkF. rewrite Ho. cbv zeta. rewrite Hop.
-  change ((aml_pOpName =? aml_pOpIntScopeBlock) && negb (is_zero_scopeblock co)) with false. cbv iota.
-  change (aml_pOpName =? aml_pOpIntNamedField) with false. change (is_declop aml_pOpName) with true. cbv iota.
-  rewrite Hk. cbn [fold_left]. rewrite Hpo, Hopp. change (aml_pOpPackage =? aml_pOpIntScopeBlock) with false. cbv iota.
-  change (aml_pOpName =? aml_pOpMethod) with false. cbv iota.
-  assert (Hr : renderExpr t tables (pool_fuel t) known p pk =
-               [OP_PACKAGE; 0; 1 + lenN elems] ++ tok_const OP_BYTE n ++ flat_map targ_tokens elems).
-  { unfold pool_fuel. rewrite renderExpr_S. rewrite Hpo. cbv zeta. rewrite Hopp.
+  induction es as [|a rest IH|k n es rest IHe IH] using pels_ind; intros ks f HO Hok Hf.
+  - destruct ks; [split; reflexivity|contradiction].
+  - destruct ks as [|k0 ks]; [contradiction|]. unfold pels_obj; cbn [all2] in HO. destruct HO as (Hk & Hr).
+    cbn [forallb] in Hok. apply andb_prop in Hok. destruct Hok as [Hd Hok]. rewrite pels_sz_cons in Hf. cbn [pel_sz] in Hf.
+    destruct f as [|f']; [lia|]. destruct (IH ks (S f') Hr Hok ltac:(lia)) as (E & L). cbn [flat_map length]. rewrite E, L. split; [|reflexivity]. f_equal.
+    cbn [pel_obj pel_okb pel_tokens] in *.
+    pose proof (render_targs t tables f' known sc [k0] [a] ltac:(constructor; [exact Hk|constructor]) ltac:(cbn [forallb]; rewrite Hd; reflexivity)) as R.
+    cbn [flat_map] in R. rewrite !app_nil_r in R. exact R.
+  - destruct ks as [|k0 ks]; [contradiction|]. unfold pels_obj; cbn [all2] in HO. destruct HO as (Hk & Hr).
+    cbn [forallb] in Hok. apply andb_prop in Hok. destruct Hok as [Hd Hok]. rewrite pels_sz_cons, pel_sz_sub in Hf.
+    destruct f as [|f']; [lia|]. destruct (IH ks (S f') Hr Hok ltac:(lia)) as (E & L). cbn [flat_map length]. rewrite E, L. split; [|reflexivity]. f_equal.
+    rewrite pel_obj_sub in Hk. destruct Hk as (po & kb & ksb & so & Hpo & Hopp & Hinf & Hvp & Hkp & Hkb & Hso & Hops & HF).
+    rewrite pel_okb_sub in Hd. apply andb_prop in Hd. destruct Hd as [_ Hes].
+    destruct f' as [|f'']; [lia|]. destruct (IHe (View.kids t so) (S f'') HF Hes ltac:(lia)) as (Ee & Le).
+    rewrite renderExpr_S. rewrite Hpo. cbv zeta. rewrite Hopp.
     change (aml_pOpPackage =? aml_pOpIntResolvedNamePath) with false. change (aml_pOpPackage =? aml_pOpIntNamePath) with false.
     change (aml_pOpPackage =? aml_pOpIntNamePathOrMethodCall) with false. change (aml_pOpPackage =? aml_pOpIntMethodCall) with false. cbn [orb].
-    assert (Ek : exprKids t po = kb :: eidx).
+    assert (Ek : exprKids t po = kb :: View.kids t so).
     { unfold exprKids, argTypesOf. rewrite Hkp, Hinf. cbn [exprKids_go]. destruct Hkb as (ko & Hko & Hopk & _). cbn [fst] in Hopk.
       rewrite Hko, Hopk. change (aml_pOpBytePrefix =? aml_pOpIntScopeBlock) with false. change (aml_pOpBytePrefix =? aml_pOpZero) with false. cbn [andb].
-      rewrite Hso, Hops. change (aml_pOpIntScopeBlock =? aml_pOpIntScopeBlock) with true. cbv iota. rewrite Hks, app_nil_r. reflexivity. }
-    rewrite Ek, Hvp. cbn [flat_map lenN length app].
-    assert (Elen : length eidx = length elems) by (clear -HF; induction HF; cbn [length]; [reflexivity|lia]).
-    rewrite (render_targs t tables _ known p eidx elems HF Hok).
+      rewrite Hso, Hops. change (aml_pOpIntScopeBlock =? aml_pOpIntScopeBlock) with true. cbv iota. rewrite app_nil_r. reflexivity. }
+    rewrite Ek, Hvp. cbn [flat_map lenN length app]. rewrite Ee.
     destruct Hkb as (ko & Hko & Hopk & Hkk & Hvk). cbn [fst snd] in Hopk, Hvk.
-    rewrite (render_const t tables _ known p kb ko Hko Hkk); rewrite ?Hopk; try reflexivity; [|rewrite Hvk; exact I].
-    rewrite Hvk. unfold const_tokens, tok_const. cbn [app].
-    replace (lenN (kb :: eidx)) with (1 + lenN elems) by (unfold lenN; cbn [length]; rewrite Elen; lia). reflexivity. }
-  rewrite Hr. unfold pkg_entry. cbn [app]. reflexivity.
+    rewrite (render_const t tables _ known sc kb ko Hko Hkk); rewrite ?Hopk; try reflexivity; [|rewrite Hvk; exact I].
+    rewrite Hvk. unfold const_tokens, tok_const. cbn [app pel_tokens].
+    replace (lenN (kb :: View.kids t so)) with (1 + lenN es) by (unfold lenN; cbn [length]; rewrite Le; lia). reflexivity.
+Qed.
+
+Lemma walkF_namepkg (t : T) tables f known p es stmts c co pth pk k n elems :
+  obj t c = Some co -> o_opcode co = aml_pOpName -> View.kids t co = [pth; pk] ->
+  pel_obj t tables pk (PSub k n elems) -> pel_okb (PSub k n elems) = true -> (3 + pels_sz elems <= pool_fuel t)%nat ->
+  walkF t tables f known p (es, stmts) c = (es ++ [pkg_entry (p ++ [name_num (o_name co)]) n elems], stmts).
+Proof.
+  intros Ho Hop Hk HP Hok Hfuel. unfold walkF. rewrite Ho. cbv zeta. rewrite Hop.
+  change ((aml_pOpName =? aml_pOpIntScopeBlock) && negb (is_zero_scopeblock co)) with false. cbv iota.
+  change (aml_pOpName =? aml_pOpIntNamedField) with false. change (is_declop aml_pOpName) with true. cbv iota.
+  pose proof HP as HP'. rewrite pel_obj_sub in HP'. destruct HP' as (po & kb & ksb & so & Hpo & Hopp & _).
+  rewrite Hk. cbn [fold_left]. rewrite Hpo, Hopp. change (aml_pOpPackage =? aml_pOpIntScopeBlock) with false. cbv iota.
+  change (aml_pOpName =? aml_pOpMethod) with false. cbv iota.
+  assert (Hr : renderExpr t tables (pool_fuel t) known p pk = pel_tokens (PSub k n elems)).
+  { destruct (render_pels t tables known p [PSub k n elems] [pk] (pool_fuel t)) as (E & _).
+    - unfold pels_obj; cbn [all2]. split; [exact HP|exact I].
+    - cbn [forallb]. rewrite Hok. reflexivity.
+    - cbn [pels_sz fold_right]. rewrite pel_sz_sub. fold (pels_sz elems). lia.
+    - cbn [flat_map] in E. rewrite !app_nil_r in E. exact E. }
+  rewrite Hr. unfold pkg_entry. cbn [app pel_tokens]. reflexivity.
 Qed.
 
 Section ViewF1.
@@ -304,6 +350,46 @@ Proof.
     replace (N.to_nat (off + 1)) with (length (dpre ++ [OP_STRING])) by (rewrite app_length, Hoff; unfold lenN; cbn [length]; lia).
     replace (N.to_nat (lenN bs)) with (length bs) by (unfold lenN; lia).
     apply take_bytes_app.
+Qed.
+
+Lemma pel_view vh vtbl data : nth_error tables (N.to_nat vtbl) = Some data ->
+  forall (els : list pel) b off dpre dpost, data = dpre ++ enc_pels els ++ dpost -> off = lenN dpre ->
+  forallb pel_okb els = true -> Forall (Desc g pl) (pel_trees vh vtbl b off els) ->
+  pels_obj t tables (map ridx (pel_trees vh vtbl b off els)) els.
+Proof.
+  intros Hnth. induction els as [|a rest IH|k n es rest IHe IH] using pels_ind; intros b off dpre dpost Hdata Hoff Hok HD; [exact I| |];
+    cbn [forallb] in Hok; apply andb_prop in Hok; destruct Hok as [Hd Hok]; rewrite pel_trees_cons in HD |- *; cbn [map]; unfold pels_obj; cbn [all2];
+    rewrite enc_pels_cons in Hdata.
+  - split.
+    + cbn [pel_tree ridx pel_obj pel_okb enc_pel] in *.
+      pose proof (cst_view vh vtbl data Hnth [a] b off dpre (enc_pels rest ++ dpost)
+                    ltac:(rewrite Hdata; unfold enc_ta; cbn [flat_map]; rewrite <- !app_assoc; reflexivity) Hoff
+                    ltac:(cbn [forallb]; rewrite Hd; reflexivity)
+                    ltac:(cbn [cst_pays leaf_row]; constructor; [exact (Forall_inv HD)|constructor])) as HC.
+      cbn [length seqN] in HC. inversion HC; subst. assumption.
+    + apply (IH _ _ (dpre ++ enc_pel (PLeaf a)) dpost); [rewrite Hdata, <- !app_assoc; reflexivity|rewrite lenN_app, Hoff; reflexivity|exact Hok|exact (Forall_inv_tail HD)].
+  - split.
+    2:{ apply (IH _ _ (dpre ++ enc_pel (PSub k n es)) dpost); [rewrite Hdata, <- !app_assoc; reflexivity|rewrite lenN_app, Hoff; reflexivity|exact Hok|exact (Forall_inv_tail HD)]. }
+    rewrite pel_okb_sub in Hd. apply andb_prop in Hd. destruct Hd as [Hx Hes]. apply andb_prop in Hx. destruct Hx as [_ Hpk]. apply pkglen_okb_adm in Hpk.
+    pose proof (Forall_inv HD) as DP. rewrite pel_tree_sub in DP |- *. cbn [ridx]. rewrite pel_obj_sub.
+    destruct (Desc_inv _ _ _ _ _ DP) as (PP & KP & HDp). cbn [map ridx] in KP.
+    pose proof (Forall_inv HDp) as DB. pose proof (Forall_inv (Forall_inv_tail HDp)) as DS.
+    destruct (Desc_inv _ _ _ _ _ DB) as (PB & KB & _). cbn [map] in KB.
+    destruct (Desc_inv _ _ _ _ _ DS) as (PS & KS & HDe).
+    destruct (view_obj t g pl b _ H PP ltac:(discriminate)) as (po & Hpo & Eppo & Hkpo).
+    destruct (view_obj t g pl (b + 1) _ H PB ltac:(discriminate)) as (bo & Hbo & Epbo & Hkbo).
+    destruct (view_obj t g pl (b + 2) _ H PS ltac:(discriminate)) as (so & Hso & Epso & Hkso).
+    rewrite KP in Hkpo. rewrite KB in Hkbo. rewrite KS in Hkso.
+    exists po, (b + 1), (b + 2), so.
+    split; [exact Hpo|]. split; [rewrite (pay_op _ _ Eppo); reflexivity|]. split; [rewrite (pay_info _ _ Eppo); reflexivity|].
+    split; [rewrite (pay_val _ _ Eppo); reflexivity|]. split; [exact Hkpo|].
+    split; [exists bo; split; [exact Hbo|split; [rewrite (pay_op _ _ Epbo); reflexivity|split; [exact Hkbo|rewrite (pay_val _ _ Epbo); reflexivity]]]|].
+    split; [exact Hso|]. split; [rewrite (pay_op _ _ Epso); reflexivity|]. rewrite Hkso.
+    rewrite enc_pel_sub in Hdata.
+    apply (IHe (b + 3) (off + 1 + k + 1) (dpre ++ [OP_PACKAGE] ++ enc_pkglen k (k + lenN ([n] ++ enc_pels es)) ++ [n]) (enc_pels rest ++ dpost));
+      [rewrite Hdata; repeat (first [rewrite <- app_assoc | progress cbn [app]]); reflexivity| |exact Hes|exact HDe].
+    rewrite (lenN_app dpre), (lenN_app [OP_PACKAGE]), (lenN_app (enc_pkglen _ _)), (lenN_enc_pkglen _ _ Hpk), Hoff.
+    change (lenN [OP_PACKAGE]) with 1. change (lenN [n]) with 1. lia.
 Qed.
 
 Definition VSpec (its : list item) : Prop := forall vh vtbl f known p es st b off data dpre dpost,
@@ -398,33 +484,30 @@ Proof.
                ltac:(rewrite Hdata, enc_items_cons, <- !app_assoc; reflexivity) ltac:(rewrite lenN_app; reflexivity) HDrest Hok ltac:(lia)).
     cbn [ventries flat_map ventry]. fold l. rewrite Hnm, <- !app_assoc. reflexivity.
   - apply forallb_item_cons in Hok. destruct Hok as [Hd Hok]. cbn [item_okb] in Hd. apply andb_prop in Hd. destruct Hd as [Hx Hel].
-    apply andb_prop in Hx. destruct Hx as [Hx Hpk]. apply pkglen_okb_adm in Hpk. apply andb_prop in Hx. destruct Hx as [Hx _].
+    apply andb_prop in Hx. destruct Hx as [Hx Hpk]. pose proof Hpk as Hpkb. apply pkglen_okb_adm in Hpk. apply andb_prop in Hx. destruct Hx as [Hx Hn].
     apply andb_prop in Hx. destruct Hx as [_ Hseg]. apply N.ltb_lt in Hseg.
     rewrite lay2_cons in HD |- *. rewrite map_app, fold_left_app. apply Forall_app in HD. destruct HD as [HDit HDrest].
     cbn [lay2_item map ridx fold_left] in HDit |- *.
     pose proof (Forall_inv HDit) as DN. destruct (Desc_inv _ _ _ _ _ DN) as (PN & KN & HDk). cbn [map ridx] in KN.
     change (ridx (pkg_tree vh vtbl (b + 2) (lenN dpre + 5) k n elems)) with (b + 2) in KN.
     pose proof (Forall_inv (Forall_inv_tail HDk)) as DP. unfold pkg_tree in DP.
-    destruct (Desc_inv _ _ _ _ _ DP) as (PP & KP & HDp). cbn [map ridx] in KP.
-    pose proof (Forall_inv HDp) as DB. pose proof (Forall_inv (Forall_inv_tail HDp)) as DS.
-    destruct (Desc_inv _ _ _ _ _ DB) as (PB & KB & _). cbn [map] in KB.
-    destruct (Desc_inv _ _ _ _ _ DS) as (PS & KS & HDe). rewrite leaf_row_idx, len_cst_pays in KS.
     destruct (view_obj t g pl b _ H PN ltac:(discriminate)) as (co & Hco & Epco & Hkco).
-    destruct (view_obj t g pl (b + 2) _ H PP ltac:(discriminate)) as (po & Hpo & Eppo & Hkpo).
-    destruct (view_obj t g pl (b + 2 + 1) _ H PB ltac:(discriminate)) as (bo & Hbo & Epbo & Hkbo).
-    destruct (view_obj t g pl (b + 2 + 2) _ H PS ltac:(discriminate)) as (so & Hso & Epso & Hkso).
-    rewrite KN in Hkco. rewrite KP in Hkpo. rewrite KB in Hkbo. rewrite KS in Hkso.
+    rewrite KN in Hkco.
     assert (Hnm : name_num (o_name co) = seg) by (rewrite (pay_name _ _ Epco); cbn [nam_pay y_name]; apply name_num_seg; exact Hseg).
-    pose proof (cst_view vh vtbl data Hnth elems (b + 2 + 3) (lenN dpre + 5 + 1 + k + 1)
-                  (dpre ++ OP_NAME :: seg_bytes seg ++ [OP_PACKAGE] ++ enc_pkglen k (k + lenN ([n] ++ enc_ta elems)) ++ [n]) (enc_items rest ++ dpost)
-                  ltac:(rewrite Hdata, enc_items_cons, enc_pkg_item; repeat (first [rewrite <- app_assoc | progress cbn [app]]); reflexivity)
-                  ltac:(rewrite (lenN_app dpre), lenN_cons, (lenN_app (seg_bytes seg)), (lenN_app [OP_PACKAGE]), (lenN_app (enc_pkglen _ _)), (lenN_enc_pkglen _ _ Hpk);
-                        change (lenN (seg_bytes seg)) with 4; change (lenN [OP_PACKAGE]) with 1; change (lenN [n]) with 1; lia) Hel HDe) as HC.
-    rewrite (walkF_namepkg t tables f known p es st b co (b + 1) (b + 2) po (b + 2 + 1) (b + 2 + 2) so _ n elems Hco
-               ltac:(rewrite (pay_op _ _ Epco); reflexivity) Hkco Hpo ltac:(rewrite (pay_op _ _ Eppo); reflexivity)
-               ltac:(rewrite (pay_info _ _ Eppo); reflexivity) ltac:(rewrite (pay_val _ _ Eppo); reflexivity) Hkpo
-               ltac:(exists bo; split; [exact Hbo|split; [rewrite (pay_op _ _ Epbo); reflexivity|split; [exact Hkbo|rewrite (pay_val _ _ Epbo); reflexivity]]])
-               Hso ltac:(rewrite (pay_op _ _ Epso); reflexivity) Hkso HC Hel).
+    assert (Hsub : pel_okb (PSub k n elems) = true).
+    { rewrite pel_okb_sub, Hn, Hpkb, Hel. reflexivity. }
+    pose proof (pel_view vh vtbl data Hnth [PSub k n elems] (b + 2) (lenN dpre + 5) (dpre ++ OP_NAME :: seg_bytes seg) (enc_items rest ++ dpost)
+                  ltac:(rewrite Hdata, enc_items_cons, enc_pkg_item; cbn [enc_pels flat_map]; rewrite enc_pel_sub; repeat (first [rewrite <- app_assoc | progress cbn [app]]); reflexivity)
+                  ltac:(rewrite (lenN_app dpre), lenN_cons; change (lenN (seg_bytes seg)) with 4; lia)
+                  ltac:(cbn [forallb]; rewrite Hsub; reflexivity)
+                  ltac:(cbn [pel_trees]; constructor; [exact DP|constructor])) as HC.
+    unfold pels_obj in HC; cbn [pel_trees map all2] in HC. destruct HC as (HC & _). rewrite pel_tree_sub in HC. cbn [ridx] in HC.
+    assert (Hpf : (3 + pels_sz elems <= pool_fuel t)%nat).
+    { assert (Hin : In (b + 2 + N.of_nat (2 + pels_sz elems)) (rnodes (pel_tree vh vtbl (b + 2) (lenN dpre + 5) (PSub k n elems)))).
+      { apply pel_tree_nodes. rewrite pel_sz_sub. lia. }
+      destruct (Desc_lookup g pl _ DP _ Hin) as (a0 & ks0 & Dy). destruct (Desc_inv _ _ _ _ _ Dy) as (Py & _ & _). apply pget_lt in Py.
+      unfold pool_fuel. rewrite <- (rep_len_pool _ _ _ H). lia. }
+    rewrite (walkF_namepkg t tables f known p es st b co (b + 1) (b + 2) k n elems Hco ltac:(rewrite (pay_op _ _ Epco); reflexivity) Hkco HC Hsub Hpf).
     rewrite iszs_cons, isz_pkg in Hf.
     rewrite (IH vh vtbl f known p _ st (b + N.of_nat (isz (IPkg seg k n elems))) (lenN dpre + lenN (enc_item (IPkg seg k n elems))) data (dpre ++ enc_item (IPkg seg k n elems)) dpost Hnth
                ltac:(rewrite Hdata, enc_items_cons, <- !app_assoc; reflexivity) ltac:(rewrite lenN_app; reflexivity) HDrest Hok ltac:(lia)).
